@@ -9,10 +9,10 @@ def reg(id, claimed, cat, tech, text, note, ref):
     T[id] = dict(claimed=claimed, cat=cat, tech=tech, text=text, note=note, ref=ref)
 
 PBT = "property-based testing (proptest-driven generators over a choice vector, shrinking to a replay file)"
-reg("C01", True, "exploration", "property-based differential testing against an independent, spec-shaped ECMAScript reference model (esref), itself re-validated against a frozen V8 corpus",
+reg("C01", True, "exploration", "property-based differential testing against an independent, spec-shaped ECMAScript reference model (esref), itself re-validated against a frozen V8 corpus; two bounded-exhaustive pattern slices (small grammar, flag slice) x all short haystacks; thorough: libFuzzer campaign with the same oracle",
     "Random + themed search over valid patterns x haystacks x starts; find_from(..).next() must equal the reference model's first match including every capture. ~1.2M cases per quick run.",
     "Trusted base: harness/src/esref (ES2025 22.2 + Annex B, written from the specification) and its Unicode data (V8/ICU Unicode-17 export, std). One recorded deviation (legacy \\u{...}) is attributed by quirk switch. Fuel hook.", "3 C01")
-reg("C02", True, "exploration", "property-based differential testing: backtracker vs PikeVM on generated patterns/haystacks/starts",
+reg("C02", True, "exploration", "property-based differential testing: backtracker vs PikeVM on generated and themed patterns/haystacks/starts, plus the two bounded-exhaustive pattern slices; thorough: libFuzzer campaign",
     "Random + themed search over patterns x haystacks x starts; any disagreement of the two executors on the same compiled program (both pipelines, UTF-8 and ASCII) is a violation. No absence claim beyond the explored cases.",
     "Trusted: the fuel hook (cuts runaway searches; cut cases are skipped and counted). The executors share the front end, so agreement is not correctness (that is C01).", "3 C02")
 reg("C03", True, "translation_validation", "per-program bounded equivalence by generated search: opt vs no_opt on all short haystacks",
@@ -27,10 +27,10 @@ reg("C05", True, "exploration", "bounded-exhaustive enumeration of nested-quanti
 reg("C06", True, "exploration", "property-based testing of range validity / panic freedom, same case stream on three builds (release under a crash supervisor, debug-assertions, prohibit-unsafe+index-positions)",
     "Random search with multi-byte haystacks and hostile starts; any panic, process death, assertion failure in the checked builds or invalid range is a violation.",
     "Silent out-of-bounds reads that neither crash nor trip an assertion are out of reach (ASan/Miri not in the quick tier).", "3 C06")
-reg("C07", True, "exploration", "fuzz-style generated inputs (raw code points, token soup, mutated valid patterns, size-parametric adversarial families) with a crash supervisor and a deterministic compile-tick budget",
+reg("C07", True, "exploration", "fuzz-style generated inputs (raw code points, token soup, mutated valid patterns, size-parametric adversarial families), every code point in every syntactic role and all token triples of a 71-token core, on a release and a debug-assertion build, with a crash supervisor and a deterministic compile-tick budget",
     "Random + structured search over compiler inputs; every compilation must return Ok/Err without panic, abort or exceeding A+B*n*log2(n+2) ticks; families run on a 2 MiB stack.",
     "Trusted: compile-tick hook (parser input primitives, term loop, optimizer fixpoints, emitter loop). A loop outside those is only seen by the wall-clock watchdog (INCONCLUSIVE).", "3 C07")
-reg("C08", True, "exploration", "grammar-based fuzzing (token soup, cross-mode printing, mutation, curated early errors) against the reference model's parser; both directions",
+reg("C08", True, "exploration", "grammar-based fuzzing (token soup, cross-mode printing, mutation, curated early errors) and bounded-exhaustive enumeration of all token triples of a 71-token core, against the reference model's parser; both directions",
     "Random search over strings of syntax fragments under all 24 flag sets; regress must accept exactly what the ES grammar + early errors accept.",
     "Trusted: esref's parser (agrees with V8 on 200k soup strings apart from modifiers, which V8 11.3 lacks) and the ES property-name list exported from V8/ICU. One recorded deviation (legacy \\u{...}).", "3 C08")
 reg("C09", True, "exploration", "property-based testing: iterator vs unfold of first-match, history invariants after every next()",
@@ -42,7 +42,7 @@ reg("C10", True, "exploration", "exhaustive code-point sweeps (enumerated inputs
 reg("C11", True, "exploration", "exhaustive enumeration: every ES property expression x all scalar values, rejected-name lists, candidate strings for properties of strings; oracle = V8/ICU Unicode-17 export",
     "Exhaustive over the finite domain: 1714 accepted spellings (367 sets) x {\\p,\\P} x {u,v} swept over all scalar values; ~8.6k names that must be rejected; 8.8k candidate strings x 7 properties of strings.",
     "Oracle data exported once from V8 11.3/ICU 78.2 (Unicode 17.0); ZWJ sequences / aliases outside every candidate source cannot be noticed.", "3 C11")
-reg("C12", True, "exploration", "property-based testing of class expressions against the reference model's set semantics + oracle-free set laws + exhaustive fixed-set sweeps",
+reg("C12", True, "exploration", "property-based testing of class expressions against the reference model's set semantics + oracle-free set laws + exhaustive sweeps (fixed sets over all scalar values, every short interval at every cased code point under i, all depth-2 v-mode expressions, all bracket-token triples)",
     "Random class-expression trees (legacy/u brackets, Annex B spellings, v-mode union/&&/--/nesting/\\q) probed with members, neighbours, case partners, decoys and strings; metamorphic set laws; exhaustive sweeps of \\d \\w \\s . \\b and their complements over all scalar values.",
     "Trusted: esref class evaluator and Unicode data; properties of strings are C11's.", "3 C12")
 reg("C13", True, "exploration", "property-based differential testing: ASCII vs UTF-8 entry points on generated ASCII haystacks",
